@@ -136,7 +136,7 @@ def idleStep (lvl : Int) (app : App) (s : St) : Option St :=
   | .init =>
     match parseHead s.buf with
     | .incomplete => none
-    | .bad => some { s with state := .outOfDomain }
+    | .bad => some { s with state := .outOfDomain, buf := [] }
     | .ok h rest => some { s with state := .headersReceived, head := h, buf := rest }
   | .headersReceived =>
     match decideBody lvl s.head.http11 s.head.fields with
@@ -162,7 +162,7 @@ def idleStep (lvl : Int) (app : App) (s : St) : Option St :=
   | .footersReceiving =>
     match parseTrailers s.buf with
     | .incomplete => none
-    | .bad => some { s with state := .outOfDomain }
+    | .bad => some { s with state := .outOfDomain, buf := [] }
     | .ok _ rest => some { s with state := .footersReceived, buf := rest }
   | .footersReceived => some { s with state := .fullReqReceived }
   | .fullReqReceived =>
